@@ -44,7 +44,7 @@ TIERS = {
     "quick": {"shards": 8, "budget_s": 30},
     "thorough": {"shards": 16, "budget_s": 300},
 }
-MIN_EVENTS = {"quick": 5000, "thorough": 50000}
+MIN_EVENTS = {"quick": 12000, "thorough": 120000}
 DECIDING = {"change", "helper", "cumulation", "shift", "identity", "convert", "inverse", "functional"}
 EXHAUSTIVE = {"quick": False, "thorough": False}
 RULE = (
@@ -120,8 +120,8 @@ def _shift_ok(shift, freq):
         if shift in M.KEYWORDS and freq in (1, 2, 4, 12, 365):
             return True, shift
         return False, f"keyword-{shift}-on-freq-{freq}"
-    if isinstance(shift, bool) or not isinstance(shift, (int, np.integer)):
-        return False, "non-integer-shift"
+    if isinstance(shift, bool) or not isinstance(shift, int):
+        return False, "shift-not-a-python-int"
     if shift >= 0:
         return False, "non-negative-shift"
     return True, int(shift)
@@ -454,7 +454,7 @@ def install():
                 elif isinstance(by, str):
                     inside = by in M.KEYWORDS and pre[2] in (1, 2, 4, 12, 365)
                     why = "" if inside else f"keyword-{by}-on-freq-{pre[2]}"
-                elif isinstance(by, (int, np.integer)) and not isinstance(by, bool):
+                elif isinstance(by, int) and not isinstance(by, bool):
                     inside = True
                 else:
                     why = "non-integer-shift"
@@ -880,6 +880,30 @@ _DIRECTED = [
 ]
 
 
+def _run_repo_tests(c, rel_files):
+    """thorough tier: the repository's own tests that touch these functions, run in-process under the monitors"""
+    import contextlib
+    import io
+    import os
+    root = os.path.join(rt.REPO, "tests")
+    if not os.path.isdir(root):
+        root = "/repo/tests"
+    files = [os.path.join(root, f) for f in rel_files if os.path.exists(os.path.join(root, f))]
+    if not files:
+        c.note("repo-tests:not-found")
+        return
+    try:
+        import pytest
+        buf = io.StringIO()
+        before = sum(c.events.values())
+        with contextlib.redirect_stdout(buf), contextlib.redirect_stderr(buf):
+            rc = pytest.main(["-q", "-p", "no:cacheprovider", "-W", "ignore", "--rootdir", os.path.dirname(root), *files])
+        c.extra["repo_tests_exit_code"] = int(rc)
+        c.extra["repo_tests_monitor_events"] = sum(c.events.values()) - before
+    except BaseException as exc:
+        c.inconc(f"repo-tests:harness:{type(exc).__name__}")
+
+
 def replay(c, case):
     install()
     _run_case(c, case)
@@ -896,6 +920,8 @@ def shard(c):
     if c.shard == 0:
         c.sample(_DIRECTED[1])
     n_cases = c.scale(300, 6000)
+    if c.tier == "thorough" and c.shard == 0:
+        _run_repo_tests(c, ["series/hpf_test.py", "vars/red_var_test.py", "sequential/simulate_test.py"])
     for i in range(n_cases):
         if c.out_of_time():
             break
